@@ -3,16 +3,17 @@ module verifharness
 go 1.22.0
 
 require (
+	golang.org/x/crypto v0.31.0
+	golang.org/x/net v0.33.0
 	golang.org/x/text v0.21.0
+	mellium.im/sasl v0.3.2
 	mellium.im/xmlstream v0.15.4
 	mellium.im/xmpp v0.0.0
 )
 
 require (
-	golang.org/x/crypto v0.31.0 // indirect
-	golang.org/x/net v0.33.0 // indirect
+	golang.org/x/sys v0.28.0 // indirect
 	mellium.im/reader v0.1.0 // indirect
-	mellium.im/sasl v0.3.2 // indirect
 )
 
 replace mellium.im/xmpp => /repo
